@@ -135,7 +135,7 @@ PostSteps(d) ==
     CASE d \in SegmentDecoders -> SegSteps
       [] d \in BitmapDecoders  -> BitmapSteps
       [] d \in {"SegmentRequest::read", "SegmentIdentifier::read"} -> SegReqSteps
-      [] d \in {"Transaction::read", "api::push_tx_hex"} -> TxSteps
+      [] d \in {"Transaction::read", "api::push_tx_hex", "json::Transaction"} -> TxSteps
       [] d = "TransactionBody::read" -> <<"TransactionBody::validate_read">>
       [] d = "TxKernel::read" -> <<"TxKernel::verify", "TxKernel::accessors">>
       [] d = "BlockHeader::read" -> HeaderSteps
@@ -245,6 +245,11 @@ CallOK(d, ct, len, out, consumed, nreads, peak, step) ==
 (* A value is [e, d] meaning 2^e + d (e = -1: just d), so that 2^63 and     *)
 (* 2^64 - 1 never have to be computed by TLC (32-bit integers).             *)
 IntKinds == {"u8", "u16", "u32", "u64", "len"}
+\* value tokens of a JSON text (API parameters): "js" a string with its quotes, "jn" a number / literal.  Each is replaced
+\* by the value classes 0..JsonClasses-1 (empty / odd-length / non-hex / non-ASCII / doubled / huge hex string, null,
+\* negative, 0, 2^64-1, 2^64, 1e400, array, object, boolean, numeric string, one hex byte, lone surrogate escape).
+JsonKinds == {"js", "jn"}
+JsonClasses == 20
 V(e, d) == [op |-> "set", e |-> e, d |-> d]
 Lit(n) == V(-1, n)
 
@@ -279,6 +284,7 @@ FieldOps(lay, i, donor, sweepFirst) ==
     LET k == lay.kinds[i]
         j == ((i * 5) % Len(donor.kinds)) + 1
     IN  (IF k \in IntKinds THEN ValueClasses(lay.w[i], Limits(lay.dec, lay.ct)) ELSE {})
+        \cup (IF k \in JsonKinds THEN {[op |-> "json", k |-> n] : n \in 0..(JsonClasses - 1)} ELSE {})
         \cup (IF k = "u8" /\ U8Rank(lay, i) <= sweepFirst THEN {[op |-> "sweep"]} ELSE {})
         \cup {[op |-> "trunc"], [op |-> "drop"], [op |-> "dup"],
               [op |-> "splice", from |-> donor.id, g |-> j, mode |-> "replace"],
@@ -314,4 +320,5 @@ PlanOK(lay, i, ops) ==
     /\ i \in 1..Len(lay.kinds)
     /\ \A o \in ops : o.op = "set" => (lay.kinds[i] \in IntKinds /\ (o.e >= 8 * lay.w[i] => (o.e = 8 * lay.w[i] /\ o.d < 0)))
     /\ \A o \in ops : o.op = "sweep" => lay.kinds[i] = "u8"
+    /\ \A o \in ops : o.op = "json" => lay.kinds[i] \in JsonKinds /\ o.k \in 0..(JsonClasses - 1)
 =============================================================================
